@@ -280,13 +280,24 @@ func Run(ctx *core.Ctx) {
 		"contact, tags injective over all instances of the run (child process); CONNECT cross-talk cases: 8-16 clients released together, each sending CONNECTs with a target and a " +
 		"Via chain of its own (unique marker in pseudonyms and comments, 1-3 elements on 1-2 lines, some with the own element) through one instance behind an http / https upstream " +
 		"proxy (plain and TLS listener) that records the heads - every head = its own request's chain + the instance's element, nothing of another client's, compared with " +
-		"Req.processConnect of that request alone - and through a two-instance CONNECT loop entered at both instances at once (each request passes each instance once, then 400). Non-trivial = the request carries at least one Via line, or it is a loop / fleet / first-requests / CONNECT cross-talk case; distinct = distinct " +
+		"Req.processConnect of that request alone - and through a two-instance CONNECT loop entered at both instances at once (each request passes each instance once, then 400); entropy cases " +
+		"(child process): crypto/rand.Reader swapped, only while same-name instances are constructed (header.NewViaModifier / httpspec.NewStack / whole proxies, back to back and in bursts of up to 24000 calls " +
+		"from 8-14 goroutines), for sources that fail at once / after k bytes / per call / with EOF / every second read, deliver short reads or bytes with an error, or are degenerate (zeros, constant, periodic, " +
+		"replayed): every call compared with Model.C18Tag mkInstance, then no instance or pairwise different tags, and A's request forwarded by B, refused by A. " +
+		"Non-trivial = the request carries at least one Via line, or it is a loop / fleet / first-requests / CONNECT cross-talk / entropy case; distinct = distinct " +
 		"(configuration, request bytes with the tag as a placeholder)")
 	p := newPools(ctx)
 	defer p.closeAll()
 	defer stopFirstChild()
 	for _, c := range core.LoadCorpus(ctx.Root, "C18") {
 		p.run(ctx, c)
+	}
+	// where the identifier comes from: series and bursts of constructor calls under a faulty entropy source (child process)
+	for i, ec := range genEntropy(ctx) {
+		if i == 1 {
+			ctx.Sample(ec)
+		}
+		runEntropy(ctx, ec)
 	}
 	// first requests of fresh instances: before the workers start (the bursts want the machine's processors)
 	for i, fc := range genFirst(ctx) {
